@@ -8,6 +8,7 @@ import (
 	"encoding/json"
 	"fmt"
 	"os"
+	"strings"
 	"testing"
 
 	"github.com/koordinator-sh/koordinator/pkg/koordlet/statesinformer"
@@ -99,9 +100,18 @@ func TestVerifC10(t *testing.T) {
 	maxN := env.Pick(8, 16)
 	layouts := c10Layouts(maxN)
 
-	c10RunBudgetPart(env)
-	c10RunQuotaPart(env, tree)
-	c10RunSelectPart(env, layouts)
+	// VERIF_ONLY (bin/check --only) may name parts, e.g. "budget,cpuset"; the unit name "all" or nothing runs everything
+	only := os.Getenv("VERIF_ONLY")
+	sel := func(part string) bool { return only == "" || only == "all" || strings.Contains(only, part) }
+	if sel("budget") {
+		c10RunBudgetPart(env)
+	}
+	if sel("quota") {
+		c10RunQuotaPart(env, tree)
+	}
+	if sel("select") {
+		c10RunSelectPart(env, layouts)
+	}
 
 	e2eNames := []string{"s1n1c1h2-adj", "s1n1c2h2-adj", "s2n1c2h2-split"}
 	if env.Thorough() {
@@ -113,7 +123,10 @@ func TestVerifC10(t *testing.T) {
 			e2eLayouts = append(e2eLayouts, l)
 		}
 	}
-	c10RunE2EPart(t, env, tree, e2eLayouts)
-
-	c10RunCPUSetPart(env, tree, layouts, env.Pick(2, 3))
+	if sel("e2e") {
+		c10RunE2EPart(t, env, tree, e2eLayouts)
+	}
+	if sel("cpuset") {
+		c10RunCPUSetPart(env, tree, layouts, env.Pick(2, 3))
+	}
 }
